@@ -1,5 +1,8 @@
 """C11 bounded stand-in: bond_ops.qr is an exact, isometric, charge-respecting factorization."""
 import json
+import os
+for _v in ('OMP_NUM_THREADS', 'OPENBLAS_NUM_THREADS', 'MKL_NUM_THREADS'):     # tiny matrices, 14 worker processes:
+    os.environ.setdefault(_v, '1')                                            # threaded BLAS only causes contention
 import numpy as np
 from pytenet import bond_ops
 from . import oracle
